@@ -46,7 +46,23 @@ Definition member_match (m : hdr * bytes) (o : bytes * oentry) : bool :=
 Inductive ccase :=
 | CExtract (ar : list (N * N)) (chunks : list N) (base : bytes) (dst_isdir : bool) (bufsz : option N)
            (err : N) (tr : list (bytes * oentry))
-| CWrite (ms : list (list (N * N) * list (N * N))) (ar : list (N * N)) (mem : list (bytes * oentry)).
+| CWrite (ms : list (list (N * N) * list (N * N))) (ar : list (N * N)) (mem : list (bytes * oentry))
+         (metas : list (bytes * (N * N * N) * (bytes * bytes))).   (* linkname, (uid, gid, mtime), (uname, gname) *)
+
+(* the header writer model (tobuf) reproduces the header blocks the real writer emitted *)
+Definition tobuf_match (m : bytes * oentry) (mt : bytes * (N * N * N) * (bytes * bytes)) (blocks : list (N * N)) : bool :=
+  let '(name, (ty, mode, r)) := m in
+  let '(link, (uid, gid, mtime), (un, gn)) := mt in
+  bytes_eqb (tobuf {| h_name := name; h_mode := mode; h_size := lenN (unrle r); h_type := ty; h_link := link |}
+                   {| m_uid := uid; m_gid := gid; m_mtime := mtime; m_uname := un; m_gname := gn |})
+            (unrle blocks).
+Fixpoint tobuf_all (mem : list (bytes * oentry)) (metas : list (bytes * (N * N * N) * (bytes * bytes)))
+         (ms : list (list (N * N) * list (N * N))) : bool :=
+  match mem, metas, ms with
+  | [], [], [] => true
+  | m :: mem', mt :: metas', b :: ms' => tobuf_match m mt (fst b) && tobuf_all mem' metas' ms'
+  | _, _, _ => false
+  end.
 
 Definition check_case (c : ccase) : bool :=
   match c with
@@ -55,8 +71,9 @@ Definition check_case (c : ccase) : bool :=
       let s := chunkify (2 * List.length d + 2 * List.length chunks + 2) chunks chunks d in
       let '(o, t) := run_chunked false base isdir bufsz s in
       (outcome_code o =? err) && tree_match t tr
-  | CWrite ms ar mem =>
+  | CWrite ms ar mem metas =>
       let d := unrle ar in
+      tobuf_all mem metas ms &&
       bytes_eqb (write_archive (map (fun m => (unrle (fst m), unrle (snd m))) ms)) d
       && match members_flat d with
          | (Done, l) => (List.length l =? List.length mem)%nat && forallb (fun p => member_match (fst p) (snd p)) (combine l mem)
